@@ -333,6 +333,15 @@ theorem reopen_sinv {s : St} (h : SInv s) : SInv (reopen s) := by
   · intro t ht
     exact h.ssts t (mem_sortSSTs ht)
 
+theorem reopenC_sinv {s : St} (h : SInv s) : SInv (reopenC s) := by
+  have hr := reopen_sinv h
+  unfold reopenC reopenFresh
+  split
+  · split
+    · exact hr
+    · exact ⟨hr.active, hr.imms, hr.mgr, hr.ssts⟩
+  · exact hr
+
 /-! ### the invariant along a program -/
 
 theorem init_sinv (cfg : Cfg) : SInv (init cfg) :=
@@ -345,7 +354,7 @@ theorem step_sinv {s : St} (h : SInv s) (o : Op) : SInv (engStep s o).1 := by
   | batch ops => exact batch_sinv h ops
   | get k => exact h
   | flush => exact flushMemTables_sinv h
-  | reopen => exact reopen_sinv h
+  | reopen => exact reopenC_sinv h
 
 theorem mapRun_cons (m : KVMap) (o : Op) (ops : List Op) : mapRun m (o :: ops) = mapRun (mapStep m o).1 ops := rfl
 
